@@ -647,6 +647,105 @@ def slow_task_case(run, rng, loop_kind):
         run.violation("exception-in-the-loop-with-overdue-tasks/%s" % sw[0]["exc"], dict(wit, swallowed=sw[:2]))
 
 
+PRE_MANAGER_SCRIPT = r"""
+import sys, json
+import bacpypes.task as T
+clock = [1000.0]
+T._time = lambda: clock[0]
+order = json.loads(sys.argv[1])
+log = []
+class Rec(T.OneShotTask):
+    def __init__(self, name):
+        T.OneShotTask.__init__(self)
+        self.name = name
+    def process_task(self):
+        log.append((self.name, clock[0]))
+class RecR(T.RecurringTask):
+    def __init__(self, name, interval):
+        T.RecurringTask.__init__(self, interval)
+        self.name = name
+    def process_task(self):
+        log.append((self.name, clock[0]))
+keep = []
+assert T._task_manager is None
+for name, kind, arg in order:
+    t = Rec(name) if kind == "at" else RecR(name, arg)
+    keep.append(t)
+    if kind == "at":
+        t.install_task(when=1000.0 + arg)
+    else:
+        t.install_task()
+from bacpypes import core
+tm = T.TaskManager()
+tm.trigger = None
+for step in range(400):
+    task, delta = tm.get_next_task()
+    if task:
+        tm.process_task(task)
+    elif delta is None or clock[0] + delta > 1004.0:
+        break
+    else:
+        clock[0] += delta
+print(json.dumps(log))
+"""
+
+
+def pre_manager_case(run, rng):
+    """tasks installed before the task manager exists (at import time, before core.run): a fresh interpreter each time, since
+    the manager is a singleton of the process.  They fire in due-time order and, for equal times, in installation order"""
+    import json
+    import os
+    import subprocess
+    import sys
+    n = rng.randrange(2, 7)
+    order = []
+    for i in range(n):
+        if rng.random() < 0.3:
+            order.append(("r%d" % i, "every", rng.choice([500, 1000])))
+        else:
+            order.append(("t%d" % i, "at", rng.choice([0.0, 1.0, 1.0, 2.0, 0.5])))
+    try:
+        p = subprocess.run([sys.executable, "-c", PRE_MANAGER_SCRIPT, json.dumps(order)], stdout=subprocess.PIPE, stderr=subprocess.PIPE,
+                           timeout=60, env=dict(os.environ))
+    except subprocess.TimeoutExpired:
+        run.count("pre_manager_subprocess_timeouts")
+        return
+    if p.returncode != 0:
+        run.violation("tasks-installed-before-the-manager-exists-break-it/" + (p.stderr.decode("utf-8", "replace").strip().splitlines() or ["?"])[-1][:60],
+                      {"installed_(name, kind, arg)": order})
+        return
+    fired = [tuple(x) for x in json.loads(p.stdout.decode())]
+    run.count("pre_manager_cases")
+    run.count("callbacks_observed", len(fired))
+    # reference: stable sort by due time of what was installed, in installation order
+    exp = []
+    seq = 0
+    for name, kind, arg in order:
+        if kind == "at":
+            exp.append((1000.0 + arg, seq, name))
+            seq += 1
+        else:
+            t = 1000.0
+            while True:
+                t += arg / 1000.0
+                if t > 1004.0 + 1e-9:
+                    break
+                exp.append((round(t, 6), seq, name))
+            seq += 1
+    exp.sort()
+    want = [(n_, t_) for t_, s_, n_ in exp]
+    got = [(n_, round(t_, 6)) for n_, t_ in fired]
+    # recurring tasks re-installed while running get new sequence numbers: compare per instant, one-shots among themselves first
+    ones_got = [x for x in got if x[0].startswith("t")]
+    ones_want = [x for x in want if x[0].startswith("t")]
+    if ones_got != ones_want:
+        run.violation("tasks-installed-before-the-manager-exists-fire-out-of-order", {"installed_(name, kind, arg)": order, "fired": got[:12], "expected_one_shots": ones_want})
+        return
+    first_got = [x[0] for x in got if x[0].startswith("r")][:sum(1 for o in order if o[1] == "every" and o[2] == 500)]
+    if sorted(got) != sorted(want):
+        run.violation("tasks-installed-before-the-manager-exists-lost-or-repeated", {"installed_(name, kind, arg)": order, "fired": got[:16], "expected": want[:16]})
+
+
 def deferred_batch(run, n, raising, nesting, raise_after_defer, loop_kind, with_tasks=False):
     """n members; members in `raising` raise; members in `nesting` defer a child; raise_after_defer: nesting
     raisers raise after they deferred"""
@@ -874,6 +973,9 @@ def main():
             run.case(("rec", str(iv), str(off), org, sh), sample={"interval_ms": str(iv), "offset_ms": str(off), "origin": org, "shift": sh},
                      sample_key=("rec", str(iv)))
             recurring_case(run, org, iv, off, sh, nfire, via_function=(idx % 5 == 0))
+    for i in range((160 if thorough else 12) // (run.shard[1] if thorough else 1) + 1):
+        run.case(("pre-manager", run.shard[0], i), sample=None)
+        pre_manager_case(run, rng)
     for i in range((3000 if thorough else 120) // (run.shard[1] if thorough else 1)):
         for loop_kind in ("run_once", "run"):
             run.case(("slow-tasks", run.shard[0], i, loop_kind), sample=None)
